@@ -74,6 +74,8 @@ def run(pid, tier, seed):
                             writers.append("%s:%s.%s" % (rel, cls.name, q))
             if "/node/" in rel.replace(os.sep, "/"):
                 for n in tree.body:
+                    if isinstance(n, ast.Assign) and len(n.targets) == 1 and isinstance(n.targets[0], ast.Name) and n.targets[0].id == "__all__":
+                        continue        # the export list is not state
                     if isinstance(n, ast.Assign) and not all(isinstance(n.value, ast.Constant) for _ in [0]) \
                             and not (isinstance(n.value, (ast.Constant, ast.Tuple)) or ast.unparse(n.value).startswith("bool(")):
                         syn(res, "%s/no-module-level-state:%s" % (rel, ast.unparse(n.targets[0])), False, ast.unparse(n)[:80])
